@@ -221,7 +221,8 @@ func runHandlers(h *HCase) (string, string) {
 			return "exists"
 		}
 		// (without a database the revoke handlers answer 501 once the token is authorized)
-		wentOn := w.Code/100 == 2 || (!h.DB && w.Code == 501 && strings.HasSuffix(rq.Route, "revoke")) || past["storecert"] || past["storesshcert"] || past["revoke"] || past["revokessh"] || past["issshrevoked"] || past["isrevoked"]
+		// (a token of a type without token id, K8sSA, is authorized for revocation and Authority.Revoke then fails on GetTokenID: 500)
+		wentOn := w.Code/100 == 2 || (!h.DB && w.Code == 501 && strings.HasSuffix(rq.Route, "revoke")) || (rq.Route == "revoke" && m.idr == "e" && w.Code == 500) || past["storecert"] || past["storesshcert"] || past["revoke"] || past["revokessh"] || past["issshrevoked"] || past["isrevoked"]
 		ans := ""
 		switch {
 		case crashed:
